@@ -19,9 +19,12 @@ def Params.maxStreams (p : Params) : Dir → Nat
   | .bi => p.initialMaxStreamsBidi
   | .uni => p.initialMaxStreamsUni
 
-/-- largest connection data limit conveyed so far (transport parameters and MAX_DATA frames) -/
+/-- largest connection data limit conveyed so far (transport parameters and MAX_DATA frames);
+    like the other ghosts it restarts when 0-RTT is rejected: what was remembered or conveyed before
+    is void -/
 def peerMaxData : Hist → Nat
   | [] => 0
+  | (.rejected, _) :: _ => 0
   | (.params p, _) :: h => Nat.max p.initialMaxData (peerMaxData h)
   | (.maxData n, _) :: h => Nat.max n (peerMaxData h)
   | _ :: h => peerMaxData h
@@ -29,6 +32,7 @@ def peerMaxData : Hist → Nat
 /-- largest stream-count limit conveyed so far for direction `d` -/
 def peerMaxStreams (d : Dir) : Hist → Nat
   | [] => 0
+  | (.rejected, _) :: _ => 0
   | (.params p, _) :: h => Nat.max (p.maxStreams d) (peerMaxStreams d h)
   | (.maxStreams d' n, .ok) :: h => if d' = d then Nat.max n (peerMaxStreams d h) else peerMaxStreams d h
   | _ :: h => peerMaxStreams d h
@@ -36,6 +40,7 @@ def peerMaxStreams (d : Dir) : Hist → Nat
 /-- largest stream data limit conveyed so far for the sending half of stream `id` -/
 def peerStreamLimit (side : Side) (id : Nat) : Hist → Nat
   | [] => 0
+  | (.rejected, _) :: _ => 0
   | (.params p, _) :: h => Nat.max (p.limitFor side id) (peerStreamLimit side id h)
   | (.maxStreamData id' n, .ok) :: h =>
       if id' = id then Nat.max n (peerStreamLimit side id h) else peerStreamLimit side id h
@@ -44,18 +49,20 @@ def peerStreamLimit (side : Side) (id : Nat) : Hist → Nat
 /-- total number of bytes `write` accepted so far = sum over all streams of the highest offset -/
 def totalAccepted : Hist → Nat
   | [] => 0
+  | (.rejected, _) :: _ => 0
   | (.write _ _, .okNat k) :: h => k + totalAccepted h
   | _ :: h => totalAccepted h
 
 /-- bytes `write` accepted so far on stream `id` -/
 def acceptedOn (id : Nat) : Hist → Nat
   | [] => 0
+  | (.rejected, _) :: _ => 0
   | (.write id' _, .okNat k) :: h => if id' = id then k + acceptedOn id h else acceptedOn id h
   | _ :: h => acceptedOn id h
 
 /-- operations the ghost functions look at -/
 def Op.isGhost : Op → Bool
-  | .params _ | .maxData _ | .maxStreamData _ _ | .maxStreams _ _ | .write _ _ => true
+  | .params _ | .maxData _ | .maxStreamData _ _ | .maxStreams _ _ | .write _ _ | .rejected => true
   | _ => false
 
 /-- operations that convey credit or consume it -/
